@@ -13,6 +13,8 @@ import asynq
 from asynq import asynq as A, scheduler
 from asynq.batching import DebugBatchItem
 depth = int(sys.argv[1]); variant = sys.argv[2]
+class Bottom(Exception):
+    pass
 starts = {}
 resumes = {}
 maxframes = [0]
@@ -26,6 +28,8 @@ def link(i):
     starts[i] = starts.get(i, 0) + 1
     if i == depth:
         maxframes[0] = max(maxframes[0], frames())
+        if variant == "fail":
+            raise Bottom("bottom of the chain")
         if variant == "batch":
             v = yield DebugBatchItem("deep", 7)
             resumes[i] = resumes.get(i, 0) + 1
@@ -42,12 +46,14 @@ out = {"depth": depth, "variant": variant, "recursionlimit": sys.getrecursionlim
 try:
     v = link(1)
     out["value"] = v
-    out["ok_value"] = (v == 7 + depth - 1)
+    out["ok_value"] = (v == 7 + depth - 1) and variant != "fail"
+except Bottom:
+    out["ok_value"] = variant == "fail"      # the failure at the bottom reaches the caller through every level
 except BaseException as e:
     out["error"] = "%s: %s" % (type(e).__name__, str(e)[:200])
     out["ok_value"] = False
 out["all_started_once"] = all(starts.get(i) == 1 for i in range(1, depth + 1))
-exp_res = depth if variant == "batch" else depth - 1
+exp_res = depth if variant == "batch" else (0 if variant == "fail" else depth - 1)
 out["all_resumed_once"] = (len(resumes) == exp_res and all(v == 1 for v in resumes.values()))
 out["max_python_frames_at_bottom"] = maxframes[0]
 s = scheduler.get_scheduler()
@@ -60,7 +66,7 @@ json.dump(out, sys.stderr)
 def run(build_dir, depths, timeout=900):
     summary, bad = [], []
     for d in depths:
-        for variant in ("plain", "list", "batch"):
+        for variant in ("plain", "list", "batch", "fail"):
             try:
                 r = subprocess.run([PY, "-c", SCRIPT, str(d), variant], capture_output=True, text=True,
                                    env=pyenv(build_dir), timeout=timeout, preexec_fn=limit_resources(12))
